@@ -513,6 +513,20 @@ class Pair:
                 st, val = guarded(lambda: W.get_info(call[1]))
             else:
                 raise ValueError(call)
+        if c == "o" and st == "ok":
+            # what was handed out earlier belongs to the caller (round 6: a wrapper that writes the next observation
+            # into the array it returned the call before): the value kept from the previous call must still be what it was
+            kept = getattr(self, "_kept", None)
+            if kept is None:
+                kept = self._kept = {}
+            prev = kept.get(call[1])
+            if prev is not None and not _same_value(prev[0], prev[1]):
+                self.problems.append(("an observation handed out earlier (agent %s) was changed in place by a later call "
+                                      "on the wrapper" % call[1], None))
+            try:
+                kept[call[1]] = (val, copy.deepcopy(val))
+            except Exception:  # noqa: BLE001
+                kept.pop(call[1], None)
         self._flush()
         return st, val
 
@@ -707,6 +721,20 @@ STACKS = [["ravel"], ["ravel"], ["flatten"], ["flatten"], ["flattenAction"], ["r
 def top_agents(pair):
     W = pair.chain[0]
     return [k for k, a in W.agents.items() if is_agent(a)]
+
+
+def _same_value(a, b):
+    if isinstance(a, dict) and isinstance(b, dict):
+        return list(a.keys()) == list(b.keys()) and all(_same_value(a[k], b[k]) for k in a)
+    if isinstance(a, (list, tuple)) and isinstance(b, (list, tuple)):
+        return len(a) == len(b) and all(_same_value(x, y) for x, y in zip(a, b))
+    if isinstance(a, np.ndarray) or isinstance(b, np.ndarray):
+        a, b = np.asarray(a), np.asarray(b)
+        return a.shape == b.shape and a.dtype == b.dtype and bool(np.array_equal(a, b))
+    try:
+        return bool(a == b)
+    except Exception:  # noqa: BLE001
+        return True
 
 
 def play(rng, pair, max_calls, p_reset=0.06):
